@@ -723,7 +723,7 @@ func init() {
 		ID:  "C01",
 		Run: runC01,
 		Rule: "case = an alert() with a seeded subset of info/warn/crit thresholds and the documented reset expressions, stateChangesOnly (none / plain / interval 2-5s), noRecoveries, history(2-5), flapping with unreachable thresholds, level/id/duration fields and level tag, in stream form or (1 in 4) batch form behind a tumbling window with/without all(); 1-3 alert IDs each with 1-8/14 points drawn from values around the thresholds (including the documented 61 73 64 85 62 56 47), one concurrent writer per ID, a slow handler and unrelated task churn in the faulty configuration; " +
-			"(round 3) in a third of the cases with resets the reset conditions read a second field, in a fifth warn and crit read fields of their own that only some points carry (a condition over an absent field does not hold); " +
+			"two thirds of the batch cases keep their reset conditions (the state moves once per batch: every point is held back by the reset of the level the ID had when the batch arrived), batch windows of 2s or 4s; (round 3) in a third of the cases with resets the reset conditions read a second field, in a fifth warn and crit read fields of their own that only some points carry (a condition over an absent field does not hold); " +
 			"one case in seven instead is a flapping scenario (flapping(0.1, 0.6), default history, 25-70 points in phases of unrest and calm): a point certainly inside a flapping episode must produce no event, one certainly outside must produce its event, for every Nagios-style weighting; non-trivial = the model expects at least one event; distinct = distinct (scenario, interleaving signature) pairs",
 		Real:        []string{"AlertNode (determineLevel, alertState.Point/BufferedBatch, addEvent/triggered/updateExpired/updateFlapping, augment*)", "services/alert Service.Collect, alert.Topics, bufHandler", "WindowNode (batch form), FromNode, LogNode, TaskMaster, httpd write endpoint", "tick/stateful (threshold lambdas)"},
 		Stub:        []string{"recording alert.Handler registered on the alert's topic through the real service", "log sink below the alert node"},
